@@ -587,6 +587,14 @@ impl<'a> Gen<'a> {
                     }
                 }
                 4 if self.allow_compute && !self.in_child && self.r.chance(0.5) => self.compute(),
+                5 if self.r.chance(0.15) => {
+                    // leave the program from inside the loop at one particular counter value
+                    let k = self.r.range(0, 4);
+                    self.emit(REPC);
+                    self.emit(push(k));
+                    self.emit(EQ);
+                    self.emit(HLTIF);
+                }
                 _ => self.memory_store_only(),
             }
             while self.h > h0 {
